@@ -156,7 +156,8 @@ func c03Derive(t *rapid.T, p string, mc bool) string {
 	m := parseRefMask(p)
 	var u strings.Builder
 	if m.startURL || chance(t, "scheme", 3) {
-		u.WriteString(pick(t, "sch", []string{"http://", "https://", "ws://", "wss://", "ftp://", "HTTP://", "http:/"}))
+		u.WriteString(pick(t, "sch", []string{"http://", "https://", "ws://", "wss://", "ftp://", "HTTP://", "http:/",
+			"https://evil.test/r?u=ws://", "https://evil.test/news://", "https://evil.test/?u=http://", "xhttp://", "awss://", "https://e.test/#https://"}))
 		if chance(t, "subdomain", 2) {
 			u.WriteString(pick(t, "sub", []string{"www.", "a.b.", "x_y-1.", "A.", "a..", ".", "a/b."}))
 		}
